@@ -57,7 +57,7 @@ func fieldStores(a *ssa.Alloc) map[string][]ssa.Value {
 
 // C19: third-party frames survive only for allow-listed services.
 func C19(p *core.Program, r *core.Report) {
-	r.Explanation = "H1: HasRootDomain's decision structure equals `parse the URL (after http: prefixing of scheme-relative values); host == root or host ends with \".\"+root` (decision-list conformance on the SSA of the function). H2: in every function of package embed, each construction of a webdoc.Embed is unreachable once the `true` edges of its HasRootDomain tests are removed (guard-cut), i.e. an embed is only produced for a URL that passed the host test. H3: the constant root arguments are exactly the documented allow-list and are paired with the matching Type literal; the id is computed from the same URL value that was tested. H5: Embed.GenerateOutput builds the placeholder as a DOM element whose data-type/data-id attributes are the embed's Type/ID and serialises it with dom.OuterHTML (escaping by the serializer). H4: iframe/object/embed fall into converter switch clauses that return false without StartNode, so an unrecognised frame is dropped. H7: on every decision path of the three extractors that stores a placeholder ID, the value is strings.TrimSpace of an element of strings.Split(parsed.Path, slash) taken in a scan from the last segment backwards and decided non-empty (and not the keyword embed/video), or the data-tweet-id attribute of a rendered tweet decided non-empty. H6: the only wholesale copies of source elements outside tables/captions/embeds are Image/Figure elements, and what the image extractor stores there is pruned to img/source (shared with C04-V2/C05-S3), so no frame can ride along inside a picture."
+	r.Explanation = "H1: HasRootDomain's decision structure equals `parse the URL (after http: prefixing of scheme-relative values); host == root or host ends with \".\"+root` (decision-list conformance on the SSA of the function). H2: in every function of package embed, each construction of a webdoc.Embed is unreachable once the `true` edges of its HasRootDomain tests are removed (guard-cut), i.e. an embed is only produced for a URL that passed the host test. H3: the constant root arguments are exactly the documented allow-list and are paired with the matching Type literal; the id is computed from the same URL value that was tested. H5: Embed.GenerateOutput builds the placeholder as a DOM element whose data-type/data-id attributes are the embed's Type/ID and serialises it with dom.OuterHTML (escaping by the serializer). H4: iframe/object/embed fall into converter switch clauses that return false without StartNode, so an unrecognised frame is dropped. H7: on every decision path of the three extractors that stores a placeholder ID, the value is strings.TrimSpace of an element of strings.Split(parsed.Path, slash) taken in a scan from the last segment backwards and decided non-empty (and not the keyword embed/video), or the data-tweet-id attribute of a rendered tweet decided non-empty. H8: on every path of Embed.GenerateOutput to the AppendChild of the processed clone, a loop over the clone's iframe/object/embed descendants is passed whose iterations detach every such element except the clone itself (frames nested in a tweet's blockquote are not carried into the placeholder). H6: the only wholesale copies of source elements outside tables/captions/embeds are Image/Figure elements, and what the image extractor stores there is pruned to img/source (shared with C04-V2/C05-S3), so no frame can ride along inside a picture."
 	r.NotCovered = "parsing of ids/params from path and query (string-valued behaviour), net/url's own host parsing, what surrounds the placeholder (C05/C09)."
 
 	// H1
@@ -260,6 +260,81 @@ func C19(p *core.Program, r *core.Report) {
 	}
 	// ---- H6
 	checkPicturePruning(p, r, "H6")
+	// ---- H8: the element put into a placeholder is the frame/blockquote its extractor checked;
+	// frames nested in it were checked by nobody. Embed.GenerateOutput must take them out of the
+	// clone before the clone enters the placeholder: on every path to the AppendChild of the
+	// clone a loop over the clone's iframe/object/embed descendants is passed, and one iteration
+	// of that loop detaches the element unless it is the clone itself.
+	if eg := mustInl(p, r, "H8", "(*"+webdocPkg+".Embed).GenerateOutput"); eg != nil {
+		cn := core.NewCanon(p)
+		loops := findPruneLoops(eg)
+		nApp := 0
+		for _, call := range core.Calls(eg, func(ci ssa.CallInstruction) bool {
+			return core.IsCallTo(ci, "github.com/go-shiori/dom.AppendChild", "(*golang.org/x/net/html.Node).AppendChild")
+		}) {
+			args := call.Common().Args
+			child := core.StripConv(args[len(args)-1])
+			if !core.IsCallValue(domutilPkg+".CloneAndProcessTree", domutilPkg+".CloneAndProcessList")(child) {
+				continue
+			}
+			nApp++
+			headers := map[ssa.Instruction]bool{}
+			for _, pl := range loops {
+				if pl.picture == child && pl.sibling == nil && len(pl.loop.Header.Instrs) > 0 && frameSelector(pl) {
+					headers[pl.loop.Header.Instrs[0]] = true
+				}
+			}
+			ok, w := core.MustPassThrough(eg, call, func(in ssa.Instruction) bool { return headers[in] }, nil)
+			r.Add("H8", "frames nested in the embedded element are removed before it enters the placeholder", p.Pos(call.Pos()), ok && len(headers) > 0,
+				fmt.Sprintf("%d loops over the iframe/object/embed descendants of the clone", len(headers)), w...)
+		}
+		r.Add("H8", "the embedded element enters the placeholder as a processed clone", p.Pos(eg.Pos()), nApp >= 1, fmt.Sprintf("%d AppendChild calls with a CloneAndProcessTree result", nApp))
+		for i, pl := range loops {
+			if !frameSelector(pl) {
+				continue
+			}
+			root := cn.Of(pl.picture)
+			paths, _, err := core.EnumerateDecisions(p, eg, core.DecisionOpts{IterateAt: pl.loop.Header, ExitOutcome: "exit", Outcome: noOutcome,
+				Event: func(in ssa.Instruction, c *core.Canon) (string, bool) {
+					if ci, ok := in.(ssa.CallInstruction); ok && core.IsCallTo(ci, detachKeys...) {
+						return "detach " + c.Of(removedNode(ci)), true
+					}
+					return "", false
+				}})
+			if err != nil {
+				r.Undecided("H8", fmt.Sprintf("frame loop #%d", i+1), err.Error())
+				continue
+			}
+			n, bad := 0, 0
+			var wit []string
+			for _, pa := range paths {
+				if !strings.Contains(pa.Outcome, "next(") {
+					continue
+				}
+				n++
+				if len(pathEvents(pa)) == 1 {
+					continue
+				}
+				// kept: only the clone itself (or a node already detached together with an outer frame)
+				kept := false
+				for _, l := range pa.Lits {
+					if (strings.HasSuffix(l.Atom, " == "+root) || strings.HasPrefix(l.Atom, root+" == ")) && l.Val {
+						kept = true
+					}
+					if strings.HasSuffix(l.Atom, ".Parent == nil") && l.Val {
+						kept = true
+					}
+				}
+				if !kept {
+					bad++
+					if len(wit) < 2 {
+						wit = append(wit, pa.String())
+					}
+				}
+			}
+			r.Add("H8", fmt.Sprintf("frame loop #%d detaches every nested frame", i+1), p.Pos(pl.loop.Header.Instrs[0].Pos()), n > 0 && bad == 0, fmt.Sprintf("%d iteration paths, %d keep a frame that is not the clone itself", n, bad), wit...)
+		}
+	}
 	// ---- H7: the id of a placeholder is the last non-empty path segment of the tested URL
 	// (not "embed"/"video"), or the tweet id attribute of a rendered tweet. Decision paths of each
 	// extractor's Extract with its helpers expanded; the stored ID is rendered per path.
@@ -329,4 +404,33 @@ func C19(p *core.Program, r *core.Report) {
 		r.Add("H7", ex.typ+": the id is the last non-empty path segment of the URL", p.Pos(fn.Pos()), n > 0 && bad == 0,
 			fmt.Sprintf("%d decision paths store an ID, %d of them with a value of another shape or without the non-empty/keyword tests", n, bad), wit...)
 	}
+}
+
+// frameSelector reports whether the loop ranges over a QuerySelectorAll/GetElementsByTagName
+// snapshot whose constant selector names iframe, object and embed.
+func frameSelector(pl *pruneLoop) bool {
+	for b := range pl.loop.Body {
+		for _, in := range b.Instrs {
+			ia, ok := in.(*ssa.IndexAddr)
+			if !ok {
+				continue
+			}
+			call, ok := core.StripConv(ia.X).(*ssa.Call)
+			if !ok || len(call.Call.Args) < 2 {
+				continue
+			}
+			sel, isC := core.ConstString(call.Call.Args[1])
+			if !isC {
+				continue
+			}
+			has := map[string]bool{}
+			for _, s := range strings.Split(sel, ",") {
+				has[strings.TrimSpace(s)] = true
+			}
+			if has["iframe"] && has["object"] && has["embed"] {
+				return true
+			}
+		}
+	}
+	return false
 }
